@@ -26,8 +26,8 @@ RULE = (
     " field removal; wrong-length and low-order public keys; inner sub-TLV re-sealed under the correct session key with"
     " wrong LTSK / signature over each permuted transcript / other identifier / keys of another exchange / truncated,"
     " extended, missing signature or identifier; an attacker key smuggled into the sub-TLV and used for the signature; the"
-    " step answered with an error code (0x00..0x08, 0x80, 0xFF, empty); M2 recorded from another exchange; unencrypted sub-TLV; resume replies"
-    " with a tag from a wrong secret, flipped SessionID/Method/tag bits, unsolicited resume; every byte-prefix of the raw"
+    " step answered with an error code (0x00..0x08, 0x80, 0xFF, empty); M2 recorded from another exchange (also played back by a key-less attacker who answers M3 with a bare M4); EncryptedData truncated to every length / replaced by a bare tag; unencrypted sub-TLV; resume replies"
+    " with a tag from a wrong secret, flipped SessionID/Method/tag bits, tag truncated to 0..15 bytes or extended, unsolicited resume; MONITOR: the controller's M1 exchange key is new in every exchange of the process; every byte-prefix of the raw"
     " M2/M4 stream. EITHER (content-preserving): reordering and identical duplication - if accepted, keys must still"
     " equal the reference's. Distinct by (record, mutation, arg, mode); non-trivial = all."
 )
@@ -43,7 +43,7 @@ TIMEOUT = {"quick": 900, "thorough": 7200}
 MIN_CASES = {"quick": 15000, "thorough": 250000}
 REQUIRED_COUNTERS = [
     "honest_accepted", "accessory_accepted_m3", "keys_compared", "resume_accepted", "adversarial_rejected",
-    "m2_bitflips", "m4_bitflips", "ip_end_to_end_sessions", "ble_end_to_end_sessions", "coap_end_to_end_sessions",
+    "m2_bitflips", "m4_bitflips", "exchange_keys_observed", "ip_end_to_end_sessions", "ble_end_to_end_sessions", "coap_end_to_end_sessions",
 ]
 
 BLE_COAP_BUILT = True
@@ -142,6 +142,9 @@ def build_mutation(name, arg, rec: Record, rng, recorded):
         klass = "UNJUDGED"
 
     def m(stage, items, ex):
+        if kind == "replay_whole_exchange":
+            # a key-less attacker plays back the M2 recorded from an earlier exchange and answers M3 with a bare M4
+            return recorded["m2_by_mode"][arg % 2] if stage == "M2" else [(6, b"\x04")]
         if stage != stage_name:
             return items
         if kind == "flip":
@@ -236,6 +239,11 @@ def build_mutation(name, arg, rec: Record, rng, recorded):
             return [(6, b"\x02"), (3, ex.acc_pk), (5, ex.sub_tlv + rng.randbytes(16))]
         if kind == "replay_recorded_m2":
             return recorded["m2"]
+        if kind == "encdata_trunc":
+            return _replace(items, 5, lambda v: v[:arg])
+        if kind == "encdata_tag_only":
+            # EncryptedData = a valid tag over an EMPTY message under the session key
+            return _replace(items, 5, lambda v: refpv.seal(ex.session_key, b"PV-Msg02", b""))
         if kind == "prefix":
             raw = reftlv.encode(items)
             return raw[: min(arg, len(raw) - 1)] if len(raw) > 0 else raw
@@ -248,11 +256,27 @@ def build_mutation(name, arg, rec: Record, rng, recorded):
     return klass, m
 
 
+SEEN_IOS_PK: dict = {}
+
+
+def fresh_exchange_key(ctx, ex, replay) -> None:
+    """Monitor: the controller's Curve25519 exchange key seen in M1 is new in every exchange of this process."""
+    pk = getattr(ex, "ios_pk", None)
+    if not pk:
+        return
+    ctx.count("exchange_keys_observed")
+    if pk in SEEN_IOS_PK:
+        ctx.violation("controller-exchange-key-reused", f"M1 PublicKey {bytes(pk).hex()[:16]}.. already used by exchange #{SEEN_IOS_PK[pk]}", replay)
+    else:
+        SEEN_IOS_PK[pk] = len(SEEN_IOS_PK)
+
+
 def honest(ctx, rec: Record, rng, mode, label_idx) -> dict | None:
     ex = refpv.VerifyExchange(rec.identity, rng.randbytes(32))
     replay = {"kind": "honest", "rec": label_idx, "mode": mode}
     ctx.case("honest", label_idx, mode, rng.random(), sample={"kind": "honest", "acc_id": rec.pairing_data["AccessoryPairingID"], "ios_id": rec.ios_id, "mode": mode}, kind="honest")
     out = drv.run_pair_verify(ex, rec.pairing_data, mode)
+    fresh_exchange_key(ctx, ex, replay)
     if out.exc is not None or not out.returned:
         ctx.violation(f"honest-exchange-fails-{type(out.exc).__name__}", f"{out.summary()}: {out.exc!r}; accessory verdict on M3: {ex.m3_verdict}", replay)
         return None
@@ -319,6 +343,13 @@ def resume_cases(ctx, rec: Record, rng, mode, first, label_idx) -> None:
             if kind == "echo_request_tag":
                 req_key = refpv.hkdf(first["ex"].shared, ex.ios_pk + bytes(session_id), b"Pair-Resume-Request-Info")
                 return [(6, b"\x02"), (0, b"\x06"), (14, bytes(session_id)), (5, refpv.seal(req_key, b"PR-Msg01", b""))]
+            if kind == "trunc_tag":
+                return _replace(good, 5, lambda v: v[:arg])
+            if kind == "extend_tag":
+                return _replace(good, 5, lambda v: v + bytes(arg))
+            if kind == "trunc_tag_wrong_secret":
+                k = refpv.hkdf(rng.randbytes(32), ex.ios_pk + new_sid, b"Pair-Resume-Response-Info")
+                return [(6, b"\x02"), (0, b"\x06"), (14, new_sid), (5, refpv.seal(k, b"PR-Msg02", b"")[:arg])]
             if kind == "no_tag":
                 return _drop(good, 5)
             if kind == "no_sid":
@@ -328,6 +359,7 @@ def resume_cases(ctx, rec: Record, rng, mode, first, label_idx) -> None:
         return m
 
     plan = [("wrong_secret", 0), ("request_info_label", 0), ("nonempty_plaintext", 0), ("echo_request_tag", 0), ("no_tag", 0), ("no_sid", 0)]
+    plan += [("trunc_tag", n) for n in range(16)] + [("extend_tag", n) for n in (1, 16)] + [("trunc_tag_wrong_secret", n) for n in (0, 1, 8, 15)]
     plan += [("flip_sid", b) for b in range(0, 64, ctx.pick(7, 1))] + [("flip_tag", b) for b in range(0, 128, ctx.pick(9, 1))] + [("flip_method", b) for b in range(8)]
     for kind, arg in plan:
         # an accessory that does not hold the resumable session (so it cannot be honest about resume)
@@ -357,6 +389,7 @@ def adversarial(ctx, rec: Record, rng, mode, name, arg, recorded, label_idx) -> 
     ctx.case("adv", label_idx, mode, name, arg, sample={"kind": "adversarial", "mutation": name, "arg": arg, "mode": mode, "class": klass}, kind=name)
     replay = {"kind": "adv", "rec": label_idx, "mode": mode, "name": name, "arg": arg}
     out = drv.run_pair_verify(ex, rec.pairing_data, mode, mutate=mut)
+    fresh_exchange_key(ctx, ex, replay)
     if name == "M2:flip":
         ctx.count("m2_bitflips")
     if name == "M4:flip":
@@ -392,7 +425,9 @@ def plan_for(ctx, m2_items):
     plan += [("M2:wrong_ltsk", 0), ("M2:sig_other_identifier", 0), ("M2:sig_without_ios_key", 0), ("M2:sig_other_exchange_keys", 0),
              ("M2:wrong_accessory", 0), ("M2:id_swapped_sig_real", 0), ("M2:sig_truncated", 0), ("M2:sig_extended", 0),
              ("M2:no_identifier", 0), ("M2:no_signature", 0), ("M2:inner_empty", 0), ("M2:wrong_label", 0), ("M2:unencrypted", 0),
-             ("M2:replay_recorded_m2", 0)]
+             ("M2:replay_recorded_m2", 0), ("M2:replay_whole_exchange", 0), ("M2:replay_whole_exchange", 1), ("M2:encdata_tag_only", 0)]
+    enc_len = len(dict((t, v) for t, v in m2_items)[5])
+    plan += [("M2:encdata_trunc", n) for n in sorted({0, 1, 15, 16, 17, enc_len - 17, enc_len - 16, enc_len - 1} | set(range(0, enc_len, ctx.pick(13, 1))))]
     plan += [("M2:attacker_key_inside", i) for i in range(8)]
     plan += [("M4:error", c) for c in (0, 1, 2, 3, 4, 5, 6, 7, 8, 0x80, 255, -1)] + [("M2:error", c) for c in (0, 1, 2, 6, 255)]
     plan += [("M2:error_with_fields", c) for c in (0, 1, 2, 7, 255)]
@@ -448,7 +483,7 @@ def run(ctx) -> None:
                 firsts[mode] = h
         if len(firsts) != 2:
             continue
-        recorded = {"m2": firsts["ip"]["m2"], "signature": firsts["ip"]["signature"]}
+        recorded = {"m2": firsts["ip"]["m2"], "signature": firsts["ip"]["signature"], "m2_by_mode": [firsts["ip"]["m2"], firsts["ble"]["m2"]]}
         # session resumption is only ever requested by the BLE transport (which feeds decoded dicts)
         resume_cases(ctx, rec, rng, "ble", honest(ctx, rec, rng, "ble", idx) or firsts["ble"], idx)
         plan = plan_for(ctx, firsts["ip"]["m2"])
@@ -490,5 +525,5 @@ def replay(ctx, d) -> None:
     if d["kind"].startswith("resume"):
         resume_cases(ctx, rec, rng, mode, first, idx)
         return
-    recorded = {"m2": first["m2"], "signature": first["signature"]}
+    recorded = {"m2": first["m2"], "signature": first["signature"], "m2_by_mode": [first["m2"], first["m2"]]}
     adversarial(ctx, rec, rng, mode, d["name"], d["arg"], recorded, idx)
